@@ -46,10 +46,13 @@ func weirdEnv() map[string]any {
 		"arr": []any{1, "a", nil, 2.5, []any{1}, map[string]any{"k": "v"}, true}, "strs": []string{"b", "a"}, "ints": []int{3, 1, 2}, "m": map[string]any{"a": 1, "size": "S", "first": nil},
 		"e": "", "s": "a b c", "u": "é😀", "n": 3, "z": 0, "f": 2.5, "t": true, "nl": nil, "long": strings.Repeat("ab ", 4000),
 		"forloop": 5, "nested": map[string]any{"a": map[string]any{"b": []any{map[string]any{"c": 1}}}},
+		// collections that hold pointers, some of them nil
+		"ptrs": []*int{&n, nilp, &n}, "pstrs": []*string{&s, nil}, "pstructs": []*plainStruct{&st, nils}, "anyptrs": []any{&n, nilp, nils, []*int{nilp}},
+		"mptr": map[string]*int{"a": &n, "z": nil}, "parr": &[]any{1, nil}, "pmap": &map[string]any{"k": nilp},
 	}
 }
 
-var fuzzNames = []string{"st", "pst", "nilp", "nils", "pn", "ps", "tm", "by", "ms", "mik", "mif", "af", "u8", "i64", "u64", "f32", "big", "neg0", "dr", "drnil", "drdr",
+var fuzzNames = []string{"ptrs", "pstrs", "pstructs", "anyptrs", "mptr", "parr", "pmap", "ptrs | reverse", "anyptrs[3]", "mptr.z", "pmap.k", "st", "pst", "nilp", "nils", "pn", "ps", "tm", "by", "ms", "mik", "mif", "af", "u8", "i64", "u64", "f32", "big", "neg0", "dr", "drnil", "drdr",
 	"arr", "strs", "ints", "m", "e", "s", "u", "n", "z", "f", "t", "nl", "long", "nested", "undefined", "forloop", "st.A", "st.C", "pst.D.k", "st.E.B", "st.nm", "st.Method",
 	"st.priv", "ms.k", "ms[2]", "mik[1]", "arr[4][0]", "arr[-1]", "arr[99]", "nested.a.b[0].c", "m.size", "m.first", "arr.first", "arr.last.x", "s.size", "n.size", "by.size",
 	"tm.Year", "dr.A", "drdr.first", "u64", "pn", "(1..n)", "(n..1)", "(1..3)", "(f..t)", "(1..100000)"}
